@@ -2,7 +2,7 @@
   nexus-driver client: the client model behind a JSON line protocol (one line in, one line out).
 
   pure queries
-    {"q":"unpack","fn":"ppt"|"e2ee"|"event"|"invocation"|"result","checked":b?,"dealer_ppt":b,
+    {"q":"unpack","fn":"ppt"|"e2ee"|"event"|"invocation"|"result","bare":b?,"dealer_ppt":b,
      "details":{..},"args":[..],"kw":{..},"deser":{"kind":"err"|"nil"|"val","args":[..],"kw":{..}}}
         → {"r":"ok"|"error"|"panic"|"dropped"|"handle"|"errorReply"|"proceed"|"abort"|"err", …}
     {"q":"facts"}    → the regenerated facts the model is instantiated with
@@ -12,7 +12,7 @@
     {"cfg":{"timeout":ms,"cancel_mode":s,"dealer_ppt":b,"event_delay":ms,"prog_delay":ms,
             "behav":{"proc":{"delay":ms,"res":uri,"wait_ctx":b,"on_cancel":uri}},
             "policy":{"run_first":b,"timers_first":b,"wedge":b},"debug":b,
-            "deser":[{"ser":s,"hex":s,"kind":..,"args":..,"kw":..}], "escapes":b?, "checked":b?}} → {"ok":true}
+            "deser":[{"ser":s,"hex":s,"kind":..,"args":..,"kw":..}], "escapes":b?, "bare":b?}} → {"ok":true}
     {"t":ms,"stim":"api","g":n,"op":"subscribe"|…,"name":s,"prog":b}
     {"t":ms,"stim":"router","m":[code,…]}   {"t":ms,"stim":"rclose"}
     {"t":ms,"stim":"cancel","g":n,"kind":"canceled"|"deadline"}   {"t":ms,"stim":"close"}
@@ -127,27 +127,27 @@ def unpackedJ : Outcome Unpacked → Json
   | .ok (.ok (a, k)) => okJ "ok" [("args", listJ a), ("kw", dictJ k)]
 
 def queryUnpack (j : Json) : Json :=
-  let checked := (getBool? j "checked").getD pptChecked
+  let F : PptFacts := if (getBool? j "bare").getD false then PptFacts.allBare else PptFacts.gen
   let d := getDict j "details"
   let a := getList j "args"
   let k := getDict j "kw"
   let dr := match j.getObjVal? "deser" with | .ok x => toDeserRes x | _ => .err
   let deser : Deser := fun _ _ => dr
   match getStr j "fn" with
-  | "ppt" => unpackedJ (unpackPPTPayload checked deser d a)
-  | "e2ee" => unpackedJ (unpackE2EEPayload checked deser d a)
+  | "ppt" => unpackedJ (unpackPPTPayload F deser d a)
+  | "e2ee" => unpackedJ (unpackE2EEPayload F deser d a)
   | "event" =>
-    match eventPpt checked deser d a k with
+    match eventPpt F deser d a k with
     | .panic s => okJ "panic" [("site", .str s)]
     | .ok (.dropped e) => okJ "dropped" [("err", .str (pptErrStr e))]
     | .ok (.handle a k) => okJ "handle" [("args", listJ a), ("kw", dictJ k)]
   | "invocation" =>
-    match invocationPpt checked deser d a k with
+    match invocationPpt F deser d a k with
     | .panic s => okJ "panic" [("site", .str s)]
     | .ok (.errorReply e) => okJ "errorReply" [("err", .str (pptErrStr e))]
     | .ok (.proceed a k) => okJ "proceed" [("args", listJ a), ("kw", dictJ k)]
   | "result" =>
-    match prepareCallResult checked deser (getBool j "dealer_ppt" true) d a k with
+    match prepareCallResult F deser (getBool j "dealer_ppt" true) d a k with
     | .panic s => okJ "panic" [("site", .str s)]
     | .ok .abort => okJ "abort"
     | .ok (.err e) => okJ "err" [("err", .str (pptErrStr e))]
@@ -158,7 +158,11 @@ def factsJ : Json :=
   Json.mkObj [
     ("reply_chan_cap", natJ Gen.Client.replyChanCap),
     ("signal_has_escape", .bool Gen.Client.signalHasEscape),
-    ("ppt_checked", .bool pptChecked),
+    ("signal_escapes", .bool R.genSignalEscapes),
+    ("deletes_entry", .bool R.genDeletesEntry),
+    ("abort_closes_send", .bool R.genAbortClosesSend),
+    ("final_gate", .bool I.genFinalGate),
+    ("enqueue_escapes", .bool I.genEnqueueEscapes),
     ("inv_gate", .bool Gen.Client.invGateChecked),
     ("inv_queue_cap", natJ Gen.Client.invQueueCap),
     ("default_timeout_ms", natJ Gen.Client.defaultResponseTimeoutMs),
@@ -267,7 +271,9 @@ def toPolicy (pol : Json) : Sim.Policy :=
   { runFirst := getBool pol "run_first"
     timersFirst := getBool pol "timers_first" true
     wedge := getBool pol "wedge"
-    exitFirst := getBool pol "exit_first" }
+    exitFirst := getBool pol "exit_first"
+    swapExits := getBool pol "swap_exits"
+    apiLast := getBool pol "api_last" }
 
 def toCfg (j : Json) : Sim.Cfg × Bool :=
   let table : List (String × List UInt8 × DeserRes) :=
@@ -278,7 +284,7 @@ def toCfg (j : Json) : Sim.Cfg × Bool :=
     match table.find? (fun e => e.1 == s && e.2.1 == b) with
     | some e => e.2.2
     | none => .err
-  let checked := (getBool? j "checked").getD pptChecked
+  let F : PptFacts := if (getBool? j "bare").getD false then PptFacts.allBare else PptFacts.gen
   let pol := match j.getObjVal? "policy" with | .ok p => p | _ => Json.mkObj []
   let behav : List (String × Sim.Behav) :=
     match j.getObjVal? "behav" with
@@ -291,11 +297,11 @@ def toCfg (j : Json) : Sim.Cfg × Bool :=
   let rcfg : R.Cfg :=
     { timeout := getNat j "timeout" 1000
       cancelMode := cm
-      signalEscapes := (getBool? j "escapes").getD Gen.Client.signalHasEscape
-      pptChecked := checked
+      signalEscapes := (getBool? j "escapes").getD R.genSignalEscapes
+      ppt := F
       dealerPPT := getBool j "dealer_ppt" true
       deser := deser }
-  let icfg : I.Cfg := { pptChecked := checked, deser := deser }
+  let icfg : I.Cfg := { ppt := F, deser := deser }
   let pol := toPolicy pol
   let cfg : Sim.Cfg :=
     { r := rcfg
